@@ -31,11 +31,12 @@ ASSUMPTIONS = [
     "aliasing between a variable vector and the generated object is not examined",
 ]
 BOUNDS = {
-    "quick": "systems Q1,Q3,Q2,Q6; m in 2..5 (+ MProcess shape (2,2), (2,3)); all variable / stacked indices; "
-             "SetQOperations: every ordered set of <= 3 operations of a 10-item alphabet on Q1, <= 2 on Q3 and Q2, "
-             "<= 2 of a 10-item mixed-system alphabet; every total index",
-    "thorough": "systems Q1,Q3,Q2,Q6,D2,2,2,D3,3; m in 2..5 (+ shapes); all variable / stacked indices; SetQOperations: "
-                "<= 4 operations on Q1, <= 3 on Q3 and Q2, <= 3 of the mixed-system alphabet; every total index",
+    "quick": "systems Q1,Q3,Q2,Q6,D2,2,2 (d=2,3,4,6,8); m in 2..5 (+ MProcess shape (2,2), (2,3)); all variable / stacked "
+             "indices; SetQOperations: every ordered set of <= 4 operations of a 10-item alphabet on Q1, <= 3 on Q3 and Q2, "
+             "<= 3 of a 10-item mixed-system alphabet; every total index; tomography classes on d=2,3,4,6",
+    "thorough": "quick systems + D3,3 (d=9) + D2,3,2 (d=12), m in 2..5 (+ shapes); all variable / stacked indices; "
+                "SetQOperations: <= 5 operations on Q1, <= 4 on Q3, Q2 and the mixed-system alphabet; every total index; "
+                "tomography classes on d=2,3,4,6,8,9",
 }
 EXHAUSTIVE = {"quick": True, "thorough": True}
 CASE_TIMEOUT = 900
@@ -286,7 +287,7 @@ class Fails:
 
 
 def config_list(tier):
-    systems = ["Q1", "Q3", "Q2", "Q6"] + (["D2,2,2", "D3,3"] if tier == "thorough" else [])
+    systems = ["Q1", "Q3", "Q2", "Q6", "D2,2,2"] + (["D3,3", "D2,3,2"] if tier == "thorough" else [])
     cfgs = []
     for s in systems:
         for flag in (True, False):
@@ -757,6 +758,17 @@ def ex_setqops(p, seed):
         ok, val = A.call(sq.var_total)
         if ok and not close(val, ref_total, 10.0):
             fail("set_qoperations_from_var_total:mutates-original:%s" % cls_sig, "%s" % where)
+    # objects -> total variable -> objects
+    ok, same = A.call(sq.set_qoperations_from_var_total, ref_total.copy())
+    out.ops += 1
+    if not ok:
+        fail("set_qoperations_from_var_total:raises:%s" % cls_sig, "%s (own var_total): %s" % (where, A.fmt_exc(same)))
+    else:
+        same_lists = {"state": same.states, "gate": same.gates, "povm": same.povms, "mprocess": same.mprocesses}
+        for typ, i, cf, v in layout:
+            if len(same_lists[typ]) > i:
+                check_object(cf, fail, same_lists[typ][i], content_of(typ, lists[typ][i]), v, 10.0,
+                             "set_qoperations_from_var_total(own var_total)", "%s operation (%s,%d)" % (where, typ, i))
 
     for t in range(total):
         li, k = owner[t]
@@ -884,7 +896,7 @@ def families(tier, seed):
     rt.sort(key=lambda q: (q["hi"] - q["lo"], q["lo"]))
     ix.sort(key=lambda q: (q["hi"] - q["lo"], q["lo"]))
     nv = []
-    for s in (["Q1", "Q3", "Q2", "Q6"] if tier == "quick" else ["Q1", "Q3", "Q2", "Q6", "D2,2,2"]):
+    for s in (["Q1", "Q3", "Q2", "Q6"] if tier == "quick" else ["Q1", "Q3", "Q2", "Q6", "D2,2,2", "D3,3"]):
         for flag in (True, False):
             nv.append({"cls": "qst", "flag": flag, "sys": s, "m": 0})
             nv.append({"cls": "qpt", "flag": flag, "sys": s, "m": 0})
@@ -893,7 +905,7 @@ def families(tier, seed):
                 nv.append({"cls": "qmpt", "flag": flag, "sys": s, "m": m})
     deep = tier != "quick"
     sq = []
-    for name, maxlen in (("Q1", 4 if deep else 3), ("Q3", 3 if deep else 2), ("Q2", 3 if deep else 2), ("mixed", 3 if deep else 2)):
+    for name, maxlen in (("Q1", 5 if deep else 4), ("Q3", 4 if deep else 3), ("Q2", 4 if deep else 3), ("mixed", 4 if deep else 3)):
         for seq in ordered_sets(alphabet_of(name), maxlen):
             sq.append({"alphabet": name, "seq": seq})
     lay = [{"sys_a": a, "sys_b": b, "ma": ma, "mb": mb, "flag": f}
